@@ -19,7 +19,31 @@
     }
     fn kind_of(x: u8) -> io::ErrorKind { match x { 0 => io::ErrorKind::BrokenPipe, 1 => io::ErrorKind::Other, _ => io::ErrorKind::WouldBlock } }
 
-//# ob name=write_wrapper_delivery fn=output::WriteWrapper::{write_str,write_char} kind=bounded bound="sequences of 3 writes (write_str, write_char, write_str) against a sink failing at the k-th write call for every k in 0..=3 and every error kind in {BrokenPipe, Other, WouldBlock}" stmt="until the sink fails every byte is delivered exactly once and in order; at the failure the sink's own error (same kind) is stored and fmt::Error is returned; whatever the kind (WouldBlock included) the failure is never swallowed; a later write after a failure overwrites nothing it should not"
+//# ob name=write_wrapper_delivery2 fn=output::WriteWrapper::{write_str,write_char} kind=bounded bound="sequences of 2 writes (write_str, write_char) x failure at call k in 0..=2 x error kinds {BrokenPipe, Other, WouldBlock} (the 3-write sequence is the thorough-tier obligation write_wrapper_delivery)" stmt="before the failure the bytes reach the sink in order and exactly once; at the failure the sink's error is stored with its kind and fmt::Error is returned; nothing is written afterwards"
+    #[kani::proof]
+    #[kani::unwind(10)]
+    fn write_wrapper_delivery2() {
+        let k: usize = kani::any(); kani::assume(k <= 2);
+        let kk: u8 = kani::any(); kani::assume(kk <= 2);
+        let mut w = WriteWrapper { w: FailAt { calls: 0, k, got: [0; 8], n: 0, kind: kind_of(kk), after_failure: 0 }, err: None };
+        let r1 = fmt::Write::write_str(&mut w, "ab").is_ok();
+        assert!(r1 == (k >= 1));
+        assert!(w.err.is_some() == !r1);
+        let r2 = if r1 { fmt::Write::write_char(&mut w, 'c').is_ok() } else { false };
+        assert!(r2 == (k >= 2));
+        assert!(w.err.is_some() == (k < 2));
+        if let Some(e) = &w.err { assert!(e.kind() == kind_of(kk)); }
+        let expect: &[u8] = if k >= 2 { b"abc" } else if k == 1 { b"ab" } else { b"" };
+        assert!(w.w.n == expect.len());
+        let mut i = 0;
+        while i < expect.len() { assert!(w.w.got[i] == expect[i]); i += 1; }
+        assert!(w.w.after_failure == 0);
+        kani::cover!(k == 0 && kk == 2, "would-block at the first write");
+        kani::cover!(k == 2, "no failure");
+        std::mem::forget(w);
+    }
+
+//# ob name=write_wrapper_delivery tier=thorough fn=output::WriteWrapper::{write_str,write_char} kind=bounded bound="sequences of 3 writes (write_str, write_char, write_str) against a sink failing at the k-th write call for every k in 0..=3 and every error kind in {BrokenPipe, Other, WouldBlock}" stmt="until the sink fails every byte is delivered exactly once and in order; at the failure the sink's own error (same kind) is stored and fmt::Error is returned; whatever the kind (WouldBlock included) the failure is never swallowed; a later write after a failure overwrites nothing it should not"
     #[kani::proof]
     #[kani::unwind(10)]
     fn write_wrapper_delivery() {
